@@ -3,6 +3,7 @@ package hx
 import (
 	"errors"
 	"fmt"
+	"reflect"
 	"runtime/debug"
 	"strings"
 
@@ -321,6 +322,128 @@ func RunOpReuse(chain []*OpCase, cur *OpCase) (res Result) {
 	}
 	phase = "apply"
 	outs, err := op.Apply(vin)
+	if err != nil {
+		res.Err, res.Phase = err, phase
+		return
+	}
+	phase = "read"
+	readOuts(&res, outs)
+	return
+}
+
+// RefillG overwrites the contents of g in place (same tensor object, same backing array) with the
+// values of t, which must have the same dtype and element count. Reports false when that is impossible.
+func RefillG(g tensor.Tensor, t *ref.T) (ok bool) {
+	defer func() {
+		if recover() != nil {
+			ok = false
+		}
+	}()
+	d, isDense := g.(*tensor.Dense)
+	if !isDense {
+		return false
+	}
+	b := reflect.ValueOf(backing(t))
+	if dv := reflect.ValueOf(d.Data()); dv.Kind() == reflect.Slice {
+		if dv.Len() != b.Len() || dv.Type() != b.Type() {
+			return false
+		}
+		reflect.Copy(dv, b)
+		return true
+	}
+	if b.Len() != 1 {
+		return false
+	}
+	d.Set(0, b.Index(0).Interface())
+	return true
+}
+
+// SameSignature: both cases have the same absent-input pattern, dtypes and shapes.
+func SameSignature(a, b *OpCase) bool {
+	if len(a.Inputs) != len(b.Inputs) {
+		return false
+	}
+	for i := range a.Inputs {
+		x, y := a.Inputs[i], b.Inputs[i]
+		if (x == nil) != (y == nil) {
+			return false
+		}
+		if x == nil {
+			continue
+		}
+		if x.DT != y.DT || fmt.Sprint(x.Shape) != fmt.Sprint(y.Shape) {
+			return false
+		}
+	}
+	return true
+}
+
+// RunOpRefill: the caller's tensor objects serve prev's request, are then overwritten in place with
+// cur's values (the caller's right between two requests) and serve cur's request. sameInstance selects
+// whether one operator instance handles both requests or a fresh one handles the second.
+func RunOpRefill(prev, cur *OpCase, sameInstance bool) (res Result) {
+	phase := "get"
+	defer catch(&res, &phase)
+	g := ToGs(TJsT(prev.Inputs))
+	op, err := opset13.GetOperator(cur.Op)
+	if err != nil {
+		res.Err, res.Phase = err, phase
+		return
+	}
+	inited := false
+	func() {
+		defer func() { recover() }()
+		if op.Init(NodeForCase(prev)) != nil {
+			return
+		}
+		inited = true
+		if vin, err := op.ValidateInputs(g); err == nil {
+			op.Apply(vin)
+		}
+	}()
+	if !inited {
+		sameInstance = false
+	}
+	for i, tj := range cur.Inputs {
+		if tj == nil {
+			continue
+		}
+		if !RefillG(g[i], tj.T()) {
+			res.Err, res.Phase = fmt.Errorf("harness: cannot refill input %d in place", i), "harness"
+			return
+		}
+	}
+	if !sameInstance {
+		if op, err = opset13.GetOperator(cur.Op); err != nil {
+			res.Err, res.Phase = err, phase
+			return
+		}
+	}
+	phase = "init"
+	if !sameInstance {
+		if err := op.Init(NodeForCase(cur)); err != nil {
+			res.Err, res.Phase = err, phase
+			return
+		}
+	}
+	before := make([]Snap, len(g))
+	for i, t := range g {
+		before[i] = Snapshot(t)
+	}
+	phase = "validate"
+	vin, err := op.ValidateInputs(g)
+	if err != nil {
+		res.Err, res.Phase = err, phase
+		return
+	}
+	phase = "apply"
+	outs, err := op.Apply(vin)
+	for i, t := range g {
+		if d := before[i].Diff(Snapshot(t)); d != "" {
+			res.Mutated = fmt.Sprintf("input %d: %s", i, d)
+			break
+		}
+	}
 	if err != nil {
 		res.Err, res.Phase = err, phase
 		return
